@@ -2,12 +2,27 @@ package props
 
 import (
 	"calcsa/engines/lexfsm"
+	"calcsa/engines/vmshape"
 )
 
 func init() {
 	RegisterEngine(&Engine{Name: "lexfsm", Run: lexfsm.Run})
 	engineKinds["lexfsm"] = "finite-automaton extraction by abstract interpretation of the lexer's SSA; symbolic effect of one Lexer.Next iteration"
 
+	RegisterEngine(&Engine{Name: "vmshape", Run: vmshape.Run})
+	engineKinds["vmshape"] = "per-opcode effect summaries of the VM dispatch loop by abstract interpretation of vm.Run over a symbolic machine state; protocol rules on the summaries"
+
+	RegisterSpec(&Spec{
+		ID: "C19", Title: "Runtime error reports point at the real failure",
+		Rules: []RuleRef{
+			{"vmshape", "V4", 40, "the failing ip, the current context and exactly the fetched operands reach the report"},
+			{"vmshape", "V10", 30, "the error class reported is the class of the failure"},
+			{"vmshape", "V1", 60, "operands are fetched from the slot the instruction names"},
+		},
+		Technique:  "abstract interpretation of vm.Run per opcode; assertions on the error-return paths",
+		Decides:    "on every path of every opcode handler that ends the run with an error, the report function receives the current context, the ip of the failing instruction, the error that is returned and exactly the operand values fetched on that path in slot order; failures detected by the VM itself use the documented class.",
+		NotDecided: "the rendered text of the report; the frame walk in memory.DumpStack over arbitrary stacks; debug-info keys (compiler side).",
+	})
 	RegisterSpec(&Spec{
 		ID: "C14", Title: "Tokenisation is faithful to the text",
 		Rules: []RuleRef{
